@@ -2,18 +2,22 @@
 Spec: spec/Muc.tla (+MucGen, MucTrace). Driver: qxv muc (in-memory client, real receive path).
 Decides no listed property: records chk.cov["extensions"]["muc"]; `bin/check-ext muc` exits 1 iff an
 execution of the real code contradicts an invariant of the extension spec (docs/ext-muc.md)."""
-import collections
 import json
 import os
 import random
+import sys
+import time
 
-import vf
+sys.path.insert(0, os.path.join(os.path.dirname(os.path.abspath(__file__)), ".."))   # when run as a script
+import vf  # noqa: E402
 
 TLC_WORKERS = 4
 
 MC_QUICK = ["Muc.cfg", "MucTwo.cfg", "MucPerm.cfg"]
 MC_THOROUGH = ["MucBig.cfg", "MucTwoBig.cfg", "MucPermBig.cfg"]
 TOURS = ["MucGenTourOcc.cfg", "MucGenTourMsg.cfg", "MucGenTourPerm.cfg"]
+PERM_FLUSH = [{"a": "PermRes", "src": "r1", "rq": "r1", "q": q, "idk": "cur", "us": []}
+              for q in ("owner", "admin", "member", "outcast")]
 
 
 def _step(st):
@@ -43,6 +47,23 @@ def _step(st):
     return f"{a}({','.join(args)})"
 
 
+def _deviation(st, props):
+    """The documented deviation of the checked tree (docs/ext-muc.md) that a failing step exercises: decided
+    from the event and from which predicates fail; anything else is "other"."""
+    a, ps = st["a"], set(props)
+    if st.get("src") not in ("r1", "r2"):
+        return "other"
+    if a == "PresAv" and st["c"] == "self210":
+        return "D1-assigned-nick"
+    if a == "PresErr" and st["x"] and ps == {"JoinLeft"}:
+        return "D2-error-while-joined"
+    if a in ("PresAv", "PresUn") and st["n"] == "-" and ps <= {"Parts", "PartSigs"}:
+        return "D3-bare-jid-occupant"
+    if a == "Msg" and st["s"] and (st["ty"] != "groupchat" or st["b"]) and ps <= {"Subject", "OtherSigs"}:
+        return "D4-subject-only-groupchat-without-body"
+    return "other"
+
+
 def _strip(behs):
     for b in behs:
         b.pop("moves", None)
@@ -62,9 +83,14 @@ def _generate(chk, quick, gen):
         st["quiet"] = len(quiet)
         if quick:
             rng.shuffle(quiet)
-            quiet = quiet[:250]
+            quiet = quiet[:600 if cfg == "MucGenTourPerm.cfg" else 250]
         st["quiet_replayed"] = len(quiet)
         gen[cfg.replace(".cfg", "")] = st
+        if cfg == "MucGenTourPerm.cfg":
+            # the permission list under construction is visible only in permissionsReceived(): every behaviour of this
+            # tour is followed by the answers still missing, so that a result that was wrongly accepted or dropped shows
+            for b in moving + quiet:
+                b["steps"] = b["steps"] + PERM_FLUSH
         behs += _strip(moving) + _strip(quiet)
     # all event sequences of length 2 (thorough: 3, seeded sample) from inside the room
     allp, st = vf.tlc_gen("MucGen.tla", "MucGenAll.cfg" if quick else "MucGenAll3.cfg", steps_key=None)
@@ -83,11 +109,14 @@ def _generate(chk, quick, gen):
     st["behaviours"] = len(sim)
     gen["simulate"] = st
     behs += sim
+    # evidence samples: the longest behaviour of the occupancy tour, of the all-paths set and of the random walks
+    gen["_samples"] = [max(x, key=lambda b: len(b["steps"])) for x in (behs[:gen["MucGenTourOcc"]["moving"]], allp, sim) if x]
     return vf.maximal_behaviours(behs)
 
 
 def run(chk, replay=None):
     quick = chk.tier == "quick"
+    t0 = time.time()
     res = {"states": 0, "transitions": 0, "model_runs": []}
     chk.cov.setdefault("extensions", {})["muc"] = res
     # 1. design level: exhaustive model checks (a failing one is a bug of the specification)
@@ -102,9 +131,11 @@ def run(chk, replay=None):
     # 2. behaviours
     if replay:
         behs = [b for b in vf.read_ndjson(replay) if "steps" in b]
+        samples = behs[:3]
     else:
         res["generation"] = {}
         behs = _generate(chk, quick, res["generation"])
+        samples = res["generation"].pop("_samples")
     bpath = chk.path("muc-behaviours.ndjson")
     vf.write_ndjson(bpath, behs)
     # 3. replay on the real client + MUC manager
@@ -127,7 +158,7 @@ def run(chk, replay=None):
         "first_divergences": [{k: d[k] for k in ("case", "line", "e")} for d in s["divs"][:3]],
         "aborted_executions": s["aborts"], "conformance_failures": s["nfail"],
         "replay_wall_s": r["wall_s"], "trace_validation_wall_s": s["wall_s"],
-        "samples": [[_step(st) for st in b["steps"]] for b in behs[:2] + behs[-2:]],
+        "samples": [[_step(st) for st in b["steps"]] for b in samples],
         "rule": ("behaviours = transition tours of three bounded one-room models (occupancy with 3 nicks; messages/subject/"
                  "name/stateless requests; permission requests) + all event sequences of the all-paths depth from inside the "
                  "room + seeded random walks over 2 rooms / 3 nicks / every kind of event; each replayed on a real QXmppClient "
@@ -142,7 +173,7 @@ def run(chk, replay=None):
         lines = cases[f["case"]]
         upto = b["steps"][:max(1, f["line"] - lines[0]["_l"])]
         props = sorted({p["prop"] for p in f["props"]})
-        key = f["e"] + ":" + "+".join(props)
+        key = _deviation(upto[-1], props) + ":" + f["e"] + ":" + "+".join(props)
         c = classes.setdefault(key, {"event": f["e"], "predicates": props, "executions": 0, "shortest": None})
         c["executions"] += 1
         if c["shortest"] is None or len(upto) < len(c["shortest"]):
@@ -158,6 +189,7 @@ def run(chk, replay=None):
     if classes:
         vf.write_ndjson(chk.path("muc-failures.ndjson"),
                         [{"class": k, "steps": c["shortest"], "observed": c["_obs"]} for k, c in classes.items()])
+    res["wall_s"] = round(time.time() - t0, 1)
     res["assumptions"] = [
         "the service sends occupant presences and room messages only while a join is pending or we are an occupant",
         "status 110 on a nick other than the one asked for appears only in the join confirmation (service-assigned nick)",
@@ -168,3 +200,41 @@ def run(chk, replay=None):
         "joined() may fire again when an own nick change completes, left() may fire for a refused join (what the code does)",
         "a session that ends clears every room even if the stream could be resumed (XEP-0198): what the code does, not judged",
     ]
+
+
+def main():
+    """python3 lib/ext/muc.py --replay FILE: replay hand-written behaviours (one {"steps":[...]} per line) on the
+    built harness and print, per behaviour, the failing predicates and what was observed at the failing step."""
+    import argparse
+    ap = argparse.ArgumentParser()
+    ap.add_argument("--replay", required=True)
+    a = ap.parse_args()
+    behs = [b for b in vf.read_ndjson(a.replay) if "steps" in b]
+    d = os.path.join(vf.OUT, "ext-muc-replay")
+    os.makedirs(d, exist_ok=True)
+    bp, tp, fp = (os.path.join(d, n) for n in ("behaviours.ndjson", "trace.ndjson", "fails.ndjson"))
+    vf.write_ndjson(bp, behs)
+    vf.qxv("muc", tp, in_path=bp)
+    open(fp, "w").close()
+    s = vf.tlc_trace("MucTrace.tla", "MucTrace.cfg", tp, tag="MucTrace-replay", env={"QXV_FAILS": fp})
+    fails = {f["case"]: f for f in vf._decode_gen(fp)}
+    cases = vf.split_cases(tp, with_lines=True)
+    for n, b in enumerate(behs, 1):
+        cid = f"m{n}"
+        hist = ",".join(_step(st) for st in b["steps"])
+        f = fails.get(cid)
+        if not f:
+            print(f"{b.get('id', cid)}: conforms   {hist}")
+            continue
+        line = [x for x in cases[cid] if x["_l"] == f["line"]][0]
+        step = f["line"] - cases[cid][0]["_l"]
+        props = sorted({(p["room"] + ":" if p["room"] else "") + p["prop"] for p in f["props"]})
+        print(f"{b.get('id', cid)}: FAILS at step {step} {_step(b['steps'][step - 1])}: {', '.join(props)}   {hist}")
+        o = line["o"]
+        print("    observed: " + json.dumps({"sent": o["sent"], "msig": o["msig"],
+                                             **{r: v for r, v in o["rooms"].items() if r in json.dumps(b["steps"])}}))
+    return 1 if s["nfail"] else 0
+
+
+if __name__ == "__main__":
+    sys.exit(main())
